@@ -204,8 +204,9 @@ def check_resume(rep, rid_a, rid_b, core, res):
     gets = [(bb, t) for bb, t in res.calls('slab::Slab::get_mut')]
     if rcalls and gets:
         # the resolved entry is what was looked up (or taken out) under the id; the data is the body parameter
+        OKOR = [('core::option::Option::ok_or', 0), ('core::option::Option::ok_or_else', 0)]
         entry_ok = all(all(o.kind == 'call' and call_matches(o.term, ['slab::Slab::get_mut', 'slab::Slab::remove', 'slab::Slab::try_remove'])
-                           for o in origins(res, t['args'][0])) and origins(res, t['args'][0]) and
+                           for o in origins(res, t['args'][0], extra_identity=OKOR)) and origins(res, t['args'][0], extra_identity=OKOR) and
                        all(o.kind == 'arg' and o.n == 3 for o in origins(res, t['args'][1], through_casts=True)) for bb, t in rcalls)
     rep.expect(rid_a, entry_ok, 'resume|entry', 'the looked-up entry is resolved with the body parameter',
                'ResolveRegistry::resume resolves something other than the entry looked up under the id, or with other data')
